@@ -80,6 +80,10 @@ pub use self::{
 #[cfg(feature = "runtime")]
 pub use actor::build;
 
+#[cfg(hannibal_verif)]
+#[doc(hidden)]
+pub use context::__verif_reset_context_ids;
+
 #[cfg(feature = "runtime")]
 pub use broker::Broker;
 
